@@ -17,6 +17,7 @@ var verifC12Alphabets = []string{
 	"/a\\$,|*=",       // regular expressions, escapes, option delimiter
 	"!#[a \t",         // comments
 	"a$,=~|domain",    // option names and values
+	"a.1\t\n\v\f\r ", // every ASCII white-space character TrimSpace removes
 }
 
 func verifC12NewRule(n, alpha int) {
